@@ -119,9 +119,26 @@ impl Coster for TableCoster {
 /// validator modes: 0 always, 1 never, 2 new > old, 3 new and old have the same parity
 #[derive(Clone)]
 pub struct TableValidator(pub u8);
+
+/// every `(prev, curr)` pair the validator was consulted with since the last drain (C18: it must only ever
+/// be shown the stored value of the very key being written)
+pub static VALIDATOR_LOG: Mutex<Vec<(u64, u64)>> = Mutex::new(Vec::new());
+
+pub fn validator_log_drain() -> String {
+    let v: Vec<(u64, u64)> = std::mem::take(&mut *VALIDATOR_LOG.lock().unwrap());
+    if v.is_empty() {
+        "-".to_string()
+    } else {
+        v.iter().map(|(p, c)| format!("{}:{}", p, c)).collect::<Vec<_>>().join(",")
+    }
+}
+
 impl UpdateValidator for TableValidator {
     type Value = u64;
     fn should_update(&self, prev: &u64, curr: &u64) -> bool {
+        if self.0 != 4 {
+            VALIDATOR_LOG.lock().unwrap().push((*prev, *curr));
+        }
         match self.0 {
             0 => true,
             1 => false,
@@ -147,8 +164,10 @@ pub enum CbEv {
 }
 
 /// `.1`: leave `on_reject` to the trait's default implementation (which hands the value to `on_exit`)
+pub type CbHook = Box<dyn Fn(&CbEv) + Send + Sync>;
+
 #[derive(Clone, Default)]
-pub struct RecCallback(pub Arc<Mutex<Vec<CbEv>>>, pub bool);
+pub struct RecCallback(pub Arc<Mutex<Vec<CbEv>>>, pub bool, pub Arc<Mutex<Option<Arc<CbHook>>>>);
 
 /// a callback type that does not override `on_reject`
 struct DefaultReject(RecCallback);
@@ -166,21 +185,41 @@ impl CacheCallback for RecCallback {
     type Value = u64;
     fn on_exit(&self, val: Option<u64>) {
         if let Some(v) = val {
-            self.0.lock().unwrap().push(CbEv::Exit(v));
+            self.record(CbEv::Exit(v));
         }
     }
     fn on_evict(&self, item: Item<u64>) {
-        self.0.lock().unwrap().push(CbEv::Evict(item.index, item.conflict, item.val.unwrap_or(0), item.cost));
+        self.record(CbEv::Evict(item.index, item.conflict, item.val.unwrap_or(0), item.cost));
     }
     fn on_reject(&self, item: Item<u64>) {
         if self.1 {
-            return DefaultReject(RecCallback(self.0.clone(), false)).on_reject(item);
+            return DefaultReject(RecCallback(self.0.clone(), false, self.2.clone())).on_reject(item);
         }
-        self.0.lock().unwrap().push(CbEv::Reject(item.index, item.conflict, item.val.unwrap_or(0), item.cost));
+        self.record(CbEv::Reject(item.index, item.conflict, item.val.unwrap_or(0), item.cost));
     }
 }
 
 impl RecCallback {
+    /// run `hook` at the end of every callback (on the thread that delivers it): live scenarios use it to
+    /// call back into the cache
+    pub fn set_hook(&self, hook: CbHook) {
+        *self.2.lock().unwrap() = Some(Arc::new(hook));
+    }
+    pub fn clear_hook(&self) {
+        *self.2.lock().unwrap() = None;
+    }
+    fn record(&self, e: CbEv) {
+        self.0.lock().unwrap().push(e.clone());
+        let hook = self.2.lock().unwrap().clone();
+        if let Some(h) = hook {
+            // the hook's own calls deliver callbacks too (an update hands the old value to on_exit): one level only
+            thread_local! { static IN_HOOK: std::cell::Cell<bool> = std::cell::Cell::new(false); }
+            if !IN_HOOK.with(|f| f.replace(true)) {
+                h(&e);
+                IN_HOOK.with(|f| f.set(false));
+            }
+        }
+    }
     pub fn drain_str(&self) -> String {
         let v: Vec<CbEv> = std::mem::take(&mut *self.0.lock().unwrap());
         if v.is_empty() {
@@ -291,7 +330,7 @@ pub struct Rig {
 pub fn build(cfg: &Config) -> Result<Rig, CacheError> {
     verif::set_parked(true);
     let _ = verif::take_processor_config();
-    let cb = RecCallback(Default::default(), cfg.default_reject);
+    let cb = RecCallback(Default::default(), cfg.default_reject, Default::default());
     // three chains of builder calls (what `setters_str` reports): plain then typed, typed then plain,
     // interleaved with num_counters / max_cost given again through their setters
     let r = match cfg.setter_order() {
@@ -383,7 +422,12 @@ pub fn snap_str(s: &CacheSnap) -> String {
 
 impl Rig {
     pub fn snap(&self) -> String {
-        match crate::catch(|| verif::cache_snapshot(&self.cache, |v| *v)) {
+        match crate::catch(|| {
+            let mut s = verif::cache_snapshot(&self.cache, |v| *v);
+            // `len=` is what the public `Cache::len()` answers (the hook lists the entries themselves)
+            s.store.len = self.cache.len();
+            s
+        }) {
             Some(s) => snap_str(&s),
             None => "SNAP-PANIC".to_string(),
         }
@@ -586,7 +630,7 @@ impl<'a> Stepper<'a> {
     pub fn emit(&mut self, act: &str, ans: &str) {
         let cbs = self.rig.cb.drain_str();
         let snap = self.rig.snap();
-        self.out.line(&format!("{} | {} cbs={} {}", act, ans, cbs, snap));
+        self.out.line(&format!("{} | {} cbs={} vseen={} {}", act, ans, cbs, validator_log_drain(), snap));
     }
 
     pub fn clock(&mut self, advance_ns: u64) {
@@ -613,11 +657,23 @@ impl<'a> Stepper<'a> {
         self.next_val += 1;
         let coster = self.rig.coster.value(v);
         let key = mk_key(idx, conf);
+        // every entry point that means the same thing is used in turn
+        let variant = v % 4;
         let r = crate::catch(|| {
+            let c = &self.rig.cache;
             if only {
-                self.rig.cache.try_insert_if_present(key, v, cost)
+                if variant % 2 == 0 { c.try_insert_if_present(key, v, cost) } else { Ok(c.insert_if_present(key, v, cost)) }
+            } else if ttl_ns == 0 {
+                match variant {
+                    0 => c.try_insert(key, v, cost),
+                    1 => Ok(c.insert(key, v, cost)),
+                    2 => c.try_insert_with_ttl(key, v, cost, Duration::ZERO),
+                    _ => Ok(c.insert_with_ttl(key, v, cost, Duration::ZERO)),
+                }
+            } else if variant % 2 == 0 {
+                c.try_insert_with_ttl(key, v, cost, Duration::from_nanos(ttl_ns))
             } else {
-                self.rig.cache.try_insert_with_ttl(key, v, cost, Duration::from_nanos(ttl_ns))
+                Ok(c.insert_with_ttl(key, v, cost, Duration::from_nanos(ttl_ns)))
             }
         });
         let (ans, ret) = match r {
@@ -687,7 +743,24 @@ impl<'a> Stepper<'a> {
     pub fn get(&mut self, idx: u64, conf: u64) {
         crate::watch::note("get");
         let key = mk_key(idx, conf);
-        let r = crate::catch(|| self.rig.cache.get(&key).map(|v| *v.value()));
+        self.next_id += 1;
+        let variant = self.next_id % 4;
+        let r = crate::catch(|| match variant {
+            0 => self.rig.cache.get(&key).map(|v| *v.value()),
+            // through a short-lived clone of the handle
+            1 => {
+                let c2 = self.rig.cache.clone();
+                let r = c2.get(&key).map(|v| v.read());
+                drop(c2);
+                r
+            }
+            2 => self.rig.cache.get(&key).map(|v| *v.as_ref()),
+            _ => self.rig.cache.get(&key).map(|v| {
+                let x = *v.value();
+                v.release();
+                x
+            }),
+        });
         let ans = match r {
             Some(Some(v)) => format!("ret={}", v),
             Some(None) => "ret=none".to_string(),
@@ -696,16 +769,53 @@ impl<'a> Stepper<'a> {
         self.emit(&format!("c.get {} {}", idx, conf), &ans);
     }
 
+    /// a lookup whose `ValueRef` is kept while the clock moves on by `adv` ns: `ValueRef::ttl()` is read
+    /// before and after (C03: the remaining time, never increasing, zero once the deadline has passed)
+    pub fn get_held(&mut self, idx: u64, conf: u64, adv: u64) {
+        crate::watch::note("get_held");
+        let key = mk_key(idx, conf);
+        let now = self.now;
+        let r = crate::catch(|| {
+            self.rig.cache.get(&key).map(|v| {
+                let t0 = v.ttl();
+                verif::clock::set_manual(now + adv);
+                let t1 = v.ttl();
+                (*v.value(), t0, t1)
+            })
+        });
+        self.now += adv;
+        verif::clock::set_manual(self.now);
+        let show = |d: Duration| if d == Duration::MAX { "max".to_string() } else { d.as_nanos().to_string() };
+        let ans = match r {
+            Some(Some((v, t0, t1))) => format!("ret={} ttl0={} ttl1={}", v, show(t0), show(t1)),
+            Some(None) => "ret=none ttl0=- ttl1=-".to_string(),
+            None => "PANIC".to_string(),
+        };
+        self.emit(&format!("c.getheld {} {} {}", idx, conf, adv), &ans);
+    }
+
     pub fn get_mut(&mut self, idx: u64, conf: u64) {
         crate::watch::note("get_mut");
         let key = mk_key(idx, conf);
         let v = self.next_val;
         self.next_val += 1;
         let r = crate::catch(|| {
-            self.rig.cache.get_mut(&key).map(|mut r| {
-                let old = *r.value();
-                r.write(v);
-                old
+            self.rig.cache.get_mut(&key).map(|mut r| match v % 3 {
+                0 => {
+                    let old = *r.value();
+                    r.write(v);
+                    old
+                }
+                1 => {
+                    let old = r.clone_inner();
+                    *r.value_mut() = v;
+                    old
+                }
+                _ => {
+                    let old = *r.value();
+                    r.write_once(v);
+                    old
+                }
             })
         });
         let ans = match r {
@@ -1101,9 +1211,15 @@ pub fn cache_life(out: &mut Out, rng: &mut Rng, cfg: &Config, g: &GenOpts) {
     if fit {
         s.room_first = Some(cfg.buf_size);
     }
+    // conflict hashes of a life without forced collisions: all zero (what `TransparentKeyBuilder` yields) or
+    // non-zero and different from key to key (what `DefaultKeyBuilder` yields): one conflict per index
+    let conf_mode = rng.below(2);
+    let cf = move |i: u64| if conf_mode == 0 { 0 } else { 1 + i % 5 };
     for _ in 0..g.ops {
         let idx = base + rng.below(universe);
-        let conf = if g.collisions { rng.range(1, 2) } else { 0 };
+        // without forced collisions every key of a life carries the same conflict hash: 0 (what
+        // `TransparentKeyBuilder` yields) or non-zero (what `DefaultKeyBuilder` yields)
+        let conf = if g.collisions { rng.range(1, 2) } else { cf(idx) };
         // an insert parked after its closed-check resumes after a few other steps
         if s.parked_insert.is_some() && rng.chance(1, 3) {
             s.insert_finish();
@@ -1218,7 +1334,13 @@ pub fn cache_life(out: &mut Out, rng: &mut Rng, cfg: &Config, g: &GenOpts) {
             s.clock(adv);
             for _ in 0..rng.range(1, 4) {
                 match rng.below(7) {
-                    0 => s.get(idx, conf),
+                    0 => {
+                        if rng.chance(1, 2) {
+                            s.get(idx, conf)
+                        } else {
+                            s.get_held(idx, conf, *rng.pick(&[1u64, 2, SEC / 3, SEC]))
+                        }
+                    }
                     1 | 2 => s.get_mut(idx, conf),
                     3 => s.get_ttl(idx, conf),
                     4 => {
@@ -1243,20 +1365,50 @@ pub fn cache_life(out: &mut Out, rng: &mut Rng, cfg: &Config, g: &GenOpts) {
             s.clear();
             s.drain();
             for i in 0..4u64 {
-                s.insert(20 + i, conf, each, 0, false);
+                s.insert(20 + i, if g.collisions { conf } else { cf(20 + i) }, each, 0, false);
                 s.drain();
             }
             for i in 1..4u64 {
                 for _ in 0..3 {
-                    s.get(20 + i, conf);
+                    s.get(20 + i, if g.collisions { conf } else { cf(20 + i) });
                 }
             }
-            s.get(29, conf);
+            s.get(29, if g.collisions { conf } else { cf(29) });
             while s.worker_items() {}
-            s.insert(29, conf, 2 * each + item, 0, false);
+            s.insert(29, if g.collisions { conf } else { cf(29) }, 2 * each + item, 0, false);
             s.drain();
-            s.get(20, conf);
+            s.get(20, if g.collisions { conf } else { cf(20) });
             s.len();
+            continue;
+        }
+        // an entry whose charge is exactly zero (cost 0, Coster value 0, internal cost ignored) expires, is swept,
+        // and the key is used again: also a zero charge is released (C05, C06)
+        if !closed && g.w_ttl > 0 && cfg.ignore_internal && cfg.coster == 0 && rng.chance(1, 25) {
+            s.insert(idx, conf, 0, SEC / 2, false);
+            s.drain();
+            s.clock(2 * SEC);
+            s.proc_tick();
+            s.get(idx, conf);
+            s.insert(idx, conf, 0, 0, false);
+            s.drain();
+            s.get(idx, conf);
+            continue;
+        }
+        // many victims: a dozen small residents, then one entry that needs the room of most of them (the
+        // eviction loop runs many iterations, its sample holds stale copies of keys it already evicted)
+        if !closed && !fit && rng.chance(1, 50) && cfg.max_cost / 12 - item >= 1 {
+            let each = cfg.max_cost / 12 - item;
+            s.clear();
+            s.drain();
+            for i in 0..12u64 {
+                s.insert(40 + i, if g.collisions { conf } else { cf(40 + i) }, each, 0, false);
+                s.drain();
+            }
+            s.insert(60, if g.collisions { conf } else { cf(60) }, (8 * (each + item) - item).max(1), 0, false);
+            s.drain();
+            s.len();
+            s.insert(61, if g.collisions { conf } else { cf(61) }, each, 0, false);
+            s.drain();
             continue;
         }
         // estimator after clear(): a key is looked up often, the lookups are applied, the cache is
@@ -1331,7 +1483,8 @@ pub fn cache_life(out: &mut Out, rng: &mut Rng, cfg: &Config, g: &GenOpts) {
                     let cost = if fit { rng.range(1, share as u64) as i64 } else { rng.range(0, unit as u64) as i64 };
                     s.insert(idx, conf, cost, 0, true);
                 }
-                9..=13 => s.get(idx, conf),
+                9..=12 => s.get(idx, conf),
+                13 => s.get_held(idx, conf, *rng.pick(&[0u64, 1, 1000, SEC / 2, 2 * SEC])),
                 14 => s.get_mut(idx, conf),
                 15 => s.get_ttl(idx, conf),
                 16..=17 => s.remove(idx, conf),
@@ -1443,6 +1596,7 @@ pub fn replay_script(out: &mut Out, script: &str) {
                     s.get_mut(n(1), n(2))
                 }
                 "c.getttl" => s.get_ttl(n(1), n(2)),
+                "c.getheld" => s.get_held(n(1), n(2), n(3)),
                 "c.remove" => {
                     s.next_id = n(3);
                     s.remove(n(1), n(2))
